@@ -153,7 +153,7 @@ theorem physical_one_tolerance (eq ineq : Rat → Bool) (a g : Rat) :
     (physicalArgs eq ineq (some a) none g = true ↔ eq a = true ∧ ineq g = true) ∧
     (physicalArgs eq ineq none (some a) g = true ↔ eq g = true ∧ ineq a = true) ∧
     (physicalArgs eq ineq none none g = true ↔ eq g = true ∧ ineq g = true) := by
-  simp [physicalArgs, resolveTol, physical]
+  simp [physicalArgs, is_physical, resolveTol]
 
 theorem statePhysical_iff (rho : CMat) (eigs : List Rat) (ae ai : Rat) :
     statePhysical rho eigs ae ai = some true ↔
@@ -183,7 +183,88 @@ theorem mk_ok_iff_physical (req phys : Bool) : mk req phys = Ctor.ok ↔ (req = 
   mk_ok_iff req phys
 
 theorem mk_raises_iff (req phys : Bool) : mk req phys = Ctor.notPhysical ↔ (req = true ∧ phys = false) := by
-  cases req <;> cases phys <;> simp [mk]
+  cases req <;> cases phys <;> simp [mk, mkWith, state_ctor_raises]
+
+section bridge
+open Matrix
+open scoped ComplexOrder
+/-- C01.4 `is_positive_semidefinite` on the model matrix: for a (exactly) Hermitian `M` and under the contract
+"`np.linalg.eigvalsh` returns the eigenvalues of `M`", the verdict at `atol ≥ 0` is true exactly when `M + atol•1`
+is positive semidefinite. -/
+theorem psdVerdict_iff_posSemidef_matrix (M : CMat) (eigs : List ℚ) (atol : ℚ) (hok : M.ok = true) (ha : 0 ≤ atol)
+    (hH : M.toMatrix.IsHermitian)
+    (heig : ∀ x : ℝ, (∃ l ∈ eigs, ((l : ℚ) : ℝ) = x) ↔ ∃ i, hH.eigenvalues i = x) :
+    psdVerdict M eigs atol = some true ↔
+      (M.toMatrix + (((atol : ℚ) : ℝ) : ℂ) • (1 : Matrix (Fin M.d) (Fin M.d) ℂ)).PosSemidef := by
+  rw [psdVerdict_iff M eigs atol (isHermitian_of_toMatrix M atol hok ha hH) ha,
+    ← psdVerdict_eigs_iff_posSemidef M.toMatrix hH eigs atol ha heig, psdEig_iff eigs atol ha]
+
+/-- C01 state: physical ⇔ unit trace within the (generated) slack ∧ density matrix PSD up to `atol`, stated on the matrix. -/
+theorem statePhysical_iff_matrix (rho : CMat) (eigs : List ℚ) (x ae ai : ℚ) (hok : rho.ok = true) (ha : 0 ≤ ai)
+    (htr : rho.trace = some (x, 0)) (hH : rho.toMatrix.IsHermitian)
+    (heig : ∀ y : ℝ, (∃ l ∈ eigs, ((l : ℚ) : ℝ) = y) ↔ ∃ i, hH.eigenvalues i = y) :
+    statePhysical rho eigs ae ai = some true ↔
+      |x - 1| ≤ ae + state_is_trace_one_rtol ∧
+      (rho.toMatrix + (((ai : ℚ) : ℝ) : ℂ) • (1 : Matrix (Fin rho.d) (Fin rho.d) ℂ)).PosSemidef := by
+  rw [statePhysical_iff, traceOne_verdict_iff rho x ae htr,
+    psdVerdict_iff_posSemidef_matrix rho eigs ai hok ha hH heig]
+
+/-- C01 gate: physical ⇔ TP verdict ∧ Choi matrix PSD up to `atol` (complete positivity), stated on the Choi matrix. -/
+theorem gatePhysical_iff_matrix (onh0 : Bool) (n : Nat) (t : List C) (hs : List Rat) (choi : CMat) (eigs : List ℚ)
+    (ae ai : ℚ) (hok : choi.ok = true) (ha : 0 ≤ ai) (hH : choi.toMatrix.IsHermitian)
+    (heig : ∀ y : ℝ, (∃ l ∈ eigs, ((l : ℚ) : ℝ) = y) ↔ ∃ i, hH.eigenvalues i = y) :
+    gatePhysical onh0 n t hs choi eigs ae ai = some true ↔
+      isTp onh0 n t hs ae = some true ∧
+      (choi.toMatrix + (((ai : ℚ) : ℝ) : ℂ) • (1 : Matrix (Fin choi.d) (Fin choi.d) ℂ)).PosSemidef := by
+  rw [gatePhysical_iff, psdVerdict_iff_posSemidef_matrix choi eigs ai hok ha hH heig]
+
+example : psdVerdict ⟨2, [(0,0),(0,0),(0,0),(0,0)]⟩ [0, 0] (1/10) = some true ↔
+    ((⟨2, [(0,0),(0,0),(0,0),(0,0)]⟩ : CMat).toMatrix + ((((1/10 : ℚ)) : ℝ) : ℂ) • 1).PosSemidef := by
+  have hH : (⟨2, [(0,0),(0,0),(0,0),(0,0)]⟩ : CMat).toMatrix.IsHermitian := by
+    rw [zeroMat_toMatrix]; exact isHermitian_zero
+  refine psdVerdict_iff_posSemidef_matrix _ [0, 0] (1/10) (by decide) (by norm_num) hH ?_
+  have h0 : hH.eigenvalues = 0 := by
+    apply hH.eigenvalues_eq_zero_iff.2; exact zeroMat_toMatrix
+  intro x; simp [h0, eq_comm]
+end bridge
+
+/-! ## decision wiring regenerated from the source (`QGen.C01`): a source edit of these expressions re-opens the proofs -/
+
+/-- C01.5 on the GENERATED `QOperation.is_physical`: it is the conjunction of the equality verdict at the (optional)
+equality tolerance and the inequality verdict at the (optional) inequality tolerance — each handed on unchanged. -/
+theorem generated_is_physical_iff (eq ineq : Option Rat → Bool) (ae ai : Option Rat) :
+    is_physical eq ineq ae ai = true ↔ eq ae = true ∧ ineq ai = true := by
+  simp [is_physical]
+
+/-- C01.5 on the GENERATED constructor guards of all four types: raise ⇔ physicality required ∧ not physical
+(`is_physical()` with the default tolerances). -/
+theorem generated_ctor_raises_iff (req phys : Bool) :
+    (state_ctor_raises req phys = true ↔ (req = true ∧ phys = false)) ∧
+    (povm_ctor_raises req phys = true ↔ (req = true ∧ phys = false)) ∧
+    (gate_ctor_raises req phys = true ↔ (req = true ∧ phys = false)) ∧
+    (mprocess_ctor_raises req phys = true ↔ (req = true ∧ phys = false)) := by
+  cases req <;> cases phys <;> simp [state_ctor_raises, povm_ctor_raises, gate_ctor_raises, mprocess_ctor_raises]
+
+theorem mk_all_types_iff (req phys : Bool) :
+    (mkPovm req phys = Ctor.ok ↔ (req = true → phys = true)) ∧
+    (mkGate req phys = Ctor.ok ↔ (req = true → phys = true)) ∧
+    (mkMProcess req phys = Ctor.ok ↔ (req = true → phys = true)) := by
+  cases req <;> cases phys <;>
+    simp [mkPovm, mkGate, mkMProcess, mkWith, povm_ctor_raises, gate_ctor_raises, mprocess_ctor_raises]
+
+/-- C01.3 on the GENERATED basis-flag aggregation: the composite system is "orthonormal, Hermitian, identity-first"
+exactly when EVERY subsystem's basis passes all four basis verdicts; and gate.is_tp uses the first-row test exactly then. -/
+theorem generated_basis_flag_iff (subs : List (Bool × Bool × Bool × Bool)) :
+    onh0Flag subs = true ↔ ∀ s ∈ subs, s.1 = true ∧ s.2.1 = true ∧ s.2.2.1 = true ∧ s.2.2.2 = true := by
+  simp [onh0Flag, composite_flag, elemental_flag, List.all_eq_true, and_assoc]
+
+theorem isTp_branch (onh0 : Bool) (n : Nat) (t : List C) (hs : List Rat) (atol : Rat) :
+    isTp onh0 n t hs atol = if onh0 = true then tpRow n hs atol else tpTrace n t hs atol := by
+  cases onh0 <;> simp [isTp, is_tp_first_row_branch]
+
+example : onh0Flag [(true, true, true, true), (true, true, true, false)] = false := by decide
+example : is_physical (fun a => a == some (1/2)) (fun a => a == none) (some (1/2)) none = true := by decide +kernel
+example : gate_ctor_raises true false = true := by decide
 
 /-! ## clause "the origin object is physical" (equality part, ∀ d, ∀ m ≥ 1, every atol ≥ 0) -/
 
